@@ -14,6 +14,9 @@ def args_dump(p, m, v):
 
 # quick: in-memory + HTTP; thorough (VERIF_TIER=thorough): also the TCP adapter transport against FSimpleServer
 # and the NATS transport against FNatsServer on an in-process nats-server
+THOROUGH = os.environ.get("VERIF_TIER") == "thorough"
+# the busy-server groups (job rpcb) go over EVERY transport kind of the runner in both tiers
+BUSY_TRANSPORTS = ["nats", "tcp", "http", "mem"]
 TRANSPORTS = ["mem", "mem", "http"] + (["tcp", "tcp", "nats", "nats"] if os.environ.get("VERIF_TIER") == "thorough" else [])
 
 
@@ -136,6 +139,88 @@ def suite_c03(r, n):
             concmeta.append((p, "%s:%s:conc%s" % (transport, proto, ":oneway" if m["oneway"] else ""), g,
                              [("g3 %s %s %d %s %s" % (defs, mkey, 1 if m["oneway"] else 0, dump_val(a), o),
                                "calls=1 args=%s cid=ok result=%s" % (args_dump(p, m, a), w)) for (a, o, w) in calls]))
+    # the TIME dimension (job rpcb): per-call FContext timeouts against a BUSY server. A blocker call whose handler
+    # sleeps is issued first; while it runs a burst of calls of the service's methods (oneway and two-way mixed),
+    # each with its own timeout (small 20-200 ms / FContext default / large) and handler delay, is issued at once.
+    # FNatsServer runs with ONE worker and FSimpleServer serves a connection request by request: the burst queues
+    # behind the blocker and small-timeout requests wait at the server for longer than their own timeout.
+    busymeta = []
+    bcands = []
+    for p in progs:
+        for skey in p.services:
+            allm = p.all_methods(skey)
+            if allm: bcands.append((0 if any(m["oneway"] for (_, m) in allm) else 1, len(bcands), p, skey, allm))
+    bcands.sort(key=lambda c: (c[0], c[1]))
+    nbusy = max(4, min(len(progs), 8)) if not THOROUGH else max(8, n // 900)
+    for gi in range(nbusy):
+        if not bcands: break
+        _, _, p, skey, allm = bcands[gi % len(bcands)]
+        transport = BUSY_TRANSPORTS[gi % len(BUSY_TRANSPORTS)] if gi < 2 * len(BUSY_TRANSPORTS) else r.pick(BUSY_TRANSPORTS)
+        serial = transport in ("nats", "tcp")
+        proto = r.pick(["binary", "compact", "json"])
+        ows = [x for x in allm if x[1]["oneway"]]
+        tws = [x for x in allm if not x[1]["oneway"]]
+        block_ms = r.pick([120, 150, 200]) if not THOROUGH else r.pick([120, 200, 300, 450])
+        calls, seen = [], set()
+        def add_call(dkey, m, stage, tmo, delay):
+            for _ in range(4):
+                args = gen_args(r, p, m)
+                key = (m["name"], args_dump(p, m, args))
+                if key not in seen: break
+            else: return False
+            seen.add(key)
+            kinds = ["v", "v", "v", "e", "a"] + (["x", "x"] if m["throws"] else [])
+            if m["oneway"]: kinds = ["v"]
+            kind = r.pick(kinds)
+            if kind == "v":
+                rv = gen_val(r, p, m["ret"], 1) if m["ret"] is not None else None
+                outcome = "v" + (dump_val(rv) if rv is not None else "")
+                want = ("ok " + canon_dump(p, m["ret"], rv)) if rv is not None else "void"
+            elif kind == "x":
+                (eid, en, et) = r.pick(m["throws"])
+                ev = gen_struct(r, p, (et.file, et.name), 1)
+                outcome = "x%d=%s" % (eid, dump_val(ev))
+                want = "exc %d %s" % (eid, canon_dump(p, et, ev))
+            elif kind == "e":
+                outcome, want = "e", "app 6"
+            else:
+                ty = r.pick([0, 3, 6, 7, 10])
+                outcome, want = "a%d" % ty, "app %d" % ty
+            if m["oneway"]: want = "void"
+            calls.append({"dkey": dkey, "m": m, "stage": stage, "tmo": tmo, "delay": delay, "args": args, "outcome": outcome, "want": want})
+            return True
+        bd, bm = r.pick(tws or allm)
+        add_call(bd, bm, 0, r.pick([0, 10000]), block_ms)
+        nburst = 4 + r.intn(5) if not THOROUGH else 4 + r.intn(9)
+        for _ in range(nburst * 2):
+            if len(calls) > nburst: break
+            dkey, m = r.pick(ows) if (ows and r.chance(40)) else r.pick(tws or allm)
+            tclass = r.pick(["small", "small", "small", "default", "large"])
+            tmo = {"small": r.pick([20, 40, 60, 100, 200]), "default": 0, "large": 10000}[tclass]
+            delay = r.pick([0, 0, 0, 0, 10, 30]) if serial else r.pick([0, 0, 30, 80, 150])
+            add_call(dkey, m, 1, tmo, delay)
+        if len(calls) < 2: continue
+        payload = "%s,%s|1|%s" % (transport, proto, "|".join("%s/%s_%s|%d|%d|%d|%s|%s" % (
+            c["dkey"][0], c["dkey"][1], c["m"]["name"], c["tmo"], c["delay"], c["stage"], dump_val(c["args"]), c["outcome"]) for c in calls))
+        jobs.append(("rpcb", "p%d" % p.pid, "%s/%s" % skey, "-", payload))
+        defs = p.defs_code()
+        burst_delays = sum(c["delay"] for c in calls if c["stage"] == 1)
+        for c in calls:
+            eff = c["tmo"] or 5000
+            if c["stage"] == 0: lo = hi = c["delay"]
+            else:
+                lo = (block_ms if serial else 0) + c["delay"]
+                hi = lo + ((burst_delays - c["delay"]) if serial else 0)
+            # which outcome the TIMES decide (for the correspondence case only; the oracle below does not use it):
+            # far inside the timeout / far beyond it on a transport that honours the timeout / open
+            if c["m"]["oneway"] or eff >= 2000: decided, wait = "in-time", hi
+            elif transport != "mem" and 2 * eff <= lo and lo - eff >= 60: decided, wait = "late", lo
+            else: decided, wait = "open", hi
+            mkey = "%s/%s_%s" % (c["dkey"][0], c["dkey"][1], c["m"]["name"])
+            c["line"] = "g3q %s %s %d %s %s %d %d" % (defs, mkey, 1 if c["m"]["oneway"] else 0, dump_val(c["args"]), c["outcome"], wait, eff)
+            c["decided"] = decided
+            c["expect"] = "calls=1 args=%s cid=ok result=%s" % (args_dump(p, c["m"], c["args"]), c["want"])
+        busymeta.append((p, "%s:%s:busy" % (transport, proto), block_ms, calls))
     res, err = build_and_run(progs, jobs)
     if res is None:
         OracleFail("valid IDL with services was not compiled to Go that builds", {"op": "build", "detail": err[:3000]})
@@ -166,6 +251,51 @@ def suite_c03(r, n):
             line, seg, expect = bad or (calls[0][0], extra[0], "no handler invocation with arguments of no issued call")
             OracleFail("concurrent calls through one generated client and transport: a call is not faithful (its handler did not run exactly once with its arguments, or its caller observed another outcome)",
                        {"op": "g3c", "case": "%s g=%d n=%d" % (tag, g, len(calls)), "line": line, "got": (seg + " " + " ".join(extra))[:1500], "want": expect[:1500],
+                        "idl": "\n".join(p.text(f) for f in p.files)[:4000]})
+    for (p, tag, block_ms, calls), real in zip(busymeta, (res or [])[len(meta) + len(rawmeta) + len(concmeta):]):
+        segs = (real or "no-result").split(" ;; ")
+        extra = [x for x in segs if x.startswith("FOREIGN=")]
+        segs = [x for x in segs if not x.startswith("FOREIGN=")]
+        if len(segs) != len(calls): segs = [real or "no-result"] * len(calls)
+        Stat("busy:groups"); Stat("busy:calls", len(calls)); Stat("busy:block-ms", block_ms)
+        for t in tag.split(":"): Stat("dim:" + t)
+        bad = None
+        for c, seg in zip(calls, segs):
+            ow = c["m"]["oneway"]
+            tclass = "default" if c["tmo"] == 0 else ("small" if c["tmo"] <= 200 else "large")
+            Stat("evaluations"); Stat("busy:%s:timeout-%s" % ("oneway" if ow else "twoway", tclass)); Stat("busy:decided-" + c["decided"])
+            mm = re.match(r"calls=(\d+) args=(.*) cid=(\S+) result=(.*)$", seg, re.S)
+            why = None
+            if not mm: why = "no outcome reported"
+            else:
+                ncalls, sargs, cid, result = int(mm.group(1)), mm.group(2), mm.group(3), mm.group(4)
+                if ncalls > 1: why = "the handler ran %d times for one call" % ncalls
+                elif result == c["want"]:
+                    # the caller was told SUCCESS (oneway: nil error; two-way: the declared outcome): handled exactly
+                    # once with equal arguments, eventually — whatever its timeout and however long it waited
+                    Stat("busy:outcome-success")
+                    if seg != c["expect"]: why = "the call succeeded for its caller but its handler ran %d times%s" % (ncalls, "" if ncalls == 0 else " (arguments or correlation id differ)")
+                elif result == "err:timeout" and tclass == "small":
+                    # the caller stopped waiting: the handler may have run or not (never twice: above), with this call's arguments
+                    Stat("busy:outcome-timeout"); Stat("busy:timed-out-handled-%d" % ncalls)
+                    if ncalls == 1 and (sargs != args_dump(p, c["m"], c["args"]) or cid != "ok"): why = "a timed-out call was handled with other arguments / correlation id"
+                else: why = "the caller observed neither the handler's outcome nor (with a small timeout) TIMED_OUT"
+            # correspondence with FV.Rpc.callQ where the times decide the outcome; a oneway whose SEND timed out
+            # (caller told so) and the open two-way cases are judged by the oracle alone
+            if c["decided"] == "in-time" and not (ow and mm and mm.group(4) == "err:timeout" and tclass == "small"): Case(c["line"], seg)
+            elif c["decided"] == "late":
+                # planned to wait at least twice its timeout. The plan is in nominal times: when the scheduler made it
+                # come back in time after all (a loaded machine) there is no line to compare — the oracle has judged it
+                if mm and mm.group(4) == "err:timeout": Case(c["line"], seg)
+                else: Stat("busy:planned-late-came-in-time")
+            if why and bad is None: bad = (c, seg, why)
+        if extra and bad is None: bad = (calls[0], extra[0], "the handler was invoked with a method and arguments of no issued call")
+        if bad:
+            c, seg, why = bad
+            OracleFail("calls with their own timeouts against a busy server: " + why + " (a call that succeeded for its caller is handled exactly once with equal arguments; a timed-out one at most once; nothing nobody sent)",
+                       {"op": "g3q", "case": "%s block=%dms n=%d %s timeout=%dms delay=%dms stage=%d" % (tag, block_ms, len(calls), "oneway" if c["m"]["oneway"] else "twoway", c["tmo"] or 5000, c["delay"], c["stage"]),
+                        "line": c["line"], "got": (seg + " " + " ".join(extra))[:1500], "want": c["expect"][:1500] + (" | or err:timeout with calls<=1" if 0 < c["tmo"] <= 200 else ""),
+                        "group": [("%s %s timeout=%d delay=%d -> %s" % ("oneway" if x["m"]["oneway"] else "twoway", x["m"]["name"], x["tmo"] or 5000, x["delay"], sg[:120])) for x, sg in zip(calls, segs)],
                         "idl": "\n".join(p.text(f) for f in p.files)[:4000]})
     for (p, line, expect, tag, mwlines, mwexpect, ks, hinfo, oneway_m), real in zip(meta, res):
         if real is None: real = "no-result"
